@@ -6,6 +6,7 @@ from . import rule
 from ..frontend import AnalysisError, norm, is_property
 from ..report import Finding, RuleResult
 from ..interp import Cx
+from ..astutil import set_parents
 
 JOB = "core/usage/job.py"
 NW = "core/hardware/network.py"
@@ -571,6 +572,52 @@ def r_bound(E):
 # ---------------------------------------------------------------------------------------------- R-LOCAL
 REGRID_OPS = {"asfreq", "reindex", "resample", "shift", "tz_localize", "tz_convert", "head", "tail", "truncate", "dropna",
               "drop", "drop_duplicates", "reindex_like", "between_time", "at_time", "first", "last", "date_range"}
+
+
+@rule("R-UTCMERGE")
+def r_utcmerge(E):
+    pm = E.pm
+    res = RuleResult("R-UTCMERGE", "every way out of ExplainableHourlyQuantities.convert_to_utc that returns a series has "
+                                   "gone through the search for repeated UTC timestamps (index.duplicated / a groupby on "
+                                   "the index that sums them): a spring-forward hour shifted onto its neighbour leaves two "
+                                   "rows with the same timestamp, and whatever zone the caller believes it is in, they are "
+                                   "merged before the series leaves the converter")
+    from ..paths import enumerate_paths
+    from ..astutil import nodes_through_helpers as _nth
+    rel, fn = pm.find_function("abstract_modeling_classes/explainable_objects.py", "ExplainableHourlyQuantities.convert_to_utc")
+    finder = pm.helper_finder("ExplainableHourlyQuantities")
+
+    def merges(n):
+        if isinstance(n, ast.Call) and isinstance(n.func, ast.Attribute) and n.func.attr == "duplicated":
+            return True
+        return isinstance(n, ast.Call) and isinstance(n.func, ast.Attribute) and n.func.attr == "groupby" and any(
+            isinstance(x, ast.Attribute) and x.attr == "index" for a in n.args + [k.value for k in n.keywords]
+            for x in ast.walk(a)) or (isinstance(n, ast.Call) and isinstance(n.func, ast.Attribute)
+                                      and n.func.attr == "groupby" and any(k.arg == "level" for k in n.keywords))
+
+    def stmt_merges(st):
+        return any(merges(n) for n in _nth(st, finder, depth=2)) if not isinstance(st, ast.FunctionDef) else False
+
+    if not any(merges(n) for n in _nth(fn, finder, depth=2)):
+        res.undecided.append("convert_to_utc: the search for repeated timestamps (index.duplicated / groupby on the index) "
+                             "was not found: the rule does not recognise this way of merging")
+        return res
+    paths = enumerate_paths(fn)
+    for p in paths:
+        if p.end != "return" or not p.stmts or not isinstance(p.stmts[-1], ast.Return) or p.stmts[-1].value is None:
+            continue
+        res.instances += 1
+        if not any(stmt_merges(st) for st in p.stmts) and not any(
+                merges(n) for c, _ in p.conds for n in ast.walk(c)):
+            ret = p.stmts[-1]
+            res.findings.append(Finding(
+                "R-UTCMERGE", f"convert_to_utc return :: {norm(ret)[:80]}",
+                f"convert_to_utc returns `{norm(ret.value)[:60]}` on a path ({' and '.join(('' if pol else 'not ') + norm(c)[:40] for c, pol in p.conds) or 'unconditional'}) "
+                f"that never looks for repeated UTC timestamps: the two rows a daylight-saving change puts on the same "
+                f"hour are both kept (duplicate timestamps, index not strictly increasing)", rel, ret.lineno,
+                "ExplainableHourlyQuantities.convert_to_utc"))
+    res.floor = 1
+    return res
 
 
 @rule("R-LOCAL")
@@ -1158,6 +1205,66 @@ def _flow(fn):
     return dep, params, names
 
 
+def _filters_of(expr, names):
+    """comprehensions / filter() calls inside expr that keep only some elements of a collection named in `names`"""
+    out = []
+    for n in ast.walk(expr):
+        if isinstance(n, (ast.ListComp, ast.SetComp, ast.GeneratorExp)):
+            for g in n.generators:
+                if g.ifs and any(isinstance(x, ast.Name) and x.id in names for x in ast.walk(g.iter)):
+                    out.append(n)
+        elif isinstance(n, ast.Call) and isinstance(n.func, ast.Name) and n.func.id == "filter" and len(n.args) == 2 \
+                and any(isinstance(x, ast.Name) and x.id in names for x in ast.walk(n.args[1])):
+            out.append(n)
+    return out
+
+
+@rule("R-NARROW")
+def r_narrow(E):
+    pm = E.pm
+    res = RuleResult("R-NARROW", "no hourly-series builder replaces a selection the caller gave (active days, hours, values) by "
+                                 "a filtered copy of it — directly or through a helper that returns one: the values given "
+                                 "are reproduced or refused, never silently dropped (day 366 of a leap year, hour 23)")
+    rel, tree = pm.raw_module_tree(TB)
+    fns = {f.name: f for f in tree.body if isinstance(f, ast.FunctionDef)}
+    # helpers that return a filtered copy of one of their parameters
+    narrowing = {}
+    for name, fn in fns.items():
+        ps = [a.arg for a in fn.args.args]
+        for r in [x for x in ast.walk(fn) if isinstance(x, ast.Return) and x.value is not None]:
+            from ..astutil import fully_expanded as _fx
+            v = _fx(r.value, fn)
+            for p_ in ps:
+                if _filters_of(v, {p_}):
+                    narrowing.setdefault(name, set()).add(ps.index(p_))
+    for name, fn in sorted(fns.items()):
+        params = {a.arg for a in fn.args.args}
+        for a in [x for x in ast.walk(fn) if isinstance(x, ast.Assign)]:
+            tgt = {t.id for t in a.targets if isinstance(t, ast.Name)} & params
+            if not tgt:
+                continue
+            res.instances += 1
+            why = None
+            if _filters_of(a.value, tgt):
+                why = f"`{norm(a)[:70]}` keeps only some of the given {sorted(tgt)[0]}"
+            for c in [x for x in ast.walk(a.value) if isinstance(x, ast.Call) and isinstance(x.func, ast.Name)
+                      and x.func.id in narrowing]:
+                cps = [y.arg for y in fns[c.func.id].args.args]
+                given = {i: v for i, v in enumerate(c.args)}
+                given.update({cps.index(k.arg): k.value for k in c.keywords if k.arg in cps})
+                for i in narrowing[c.func.id]:
+                    if i in given and any(isinstance(x, ast.Name) and x.id in tgt for x in ast.walk(given[i])):
+                        why = f"`{norm(a)[:70]}`: {c.func.id} returns only some elements of its `{cps[i]}`"
+            if why:
+                res.findings.append(Finding(
+                    "R-NARROW", f"{name} narrows {sorted(tgt)[0]}",
+                    f"{name} replaces its parameter {sorted(tgt)[0]} by a filtered copy — {why}: values the caller asked "
+                    f"for disappear without an error and the series carries nothing at the matching hours", rel,
+                    a.lineno, name))
+    res.floor = 2
+    return res
+
+
 @rule("R-THREAD")
 def r_thread(E):
     pm = E.pm
@@ -1384,6 +1491,100 @@ def r_lastwins(E):
                             f"depends on hashing / random ids); the location does not depend on the element but the value "
                             f"does, so the result is whatever element happens to come last", rel, n.lineno, q))
     res.floor = 12     # 17 loops over hash-ordered collections in model code on the pinned tree
+    return res
+
+
+# ---------------------------------------------------------------------------------------------- R-NAMEKEY
+_NK_POSITIVE = '''
+class P:
+    @property
+    def per_device(self):
+        return {device.name: device.footprint * one_hour for device in self.devices}
+    def per_job(self):
+        out = {}
+        for job in self.jobs:
+            out[f"{job.name}"] = job.energy
+        return out
+'''
+_NK_NEGATIVE = '''
+class P:
+    def per_device(self):
+        return {device.id: device.footprint for device in self.devices}
+    def per_obj(self):
+        return {device: device.footprint for device in self.devices}
+    def labels(self):
+        return {device.id: device.name for device in self.devices}
+    def both(self):
+        return {(device.name, device.id): device.footprint for device in self.devices}
+'''
+
+
+def name_keyed_tables(tree):
+    """[(node, key, loop var)]: tables with one entry per element of a collection, keyed by the element's free-text name"""
+    out = []
+
+    def by_name_only(key, var):
+        names = [x for x in ast.walk(key) if isinstance(x, ast.Attribute) and isinstance(x.value, ast.Name) and x.value.id in var]
+        if not names or any(x.attr != "name" for x in names):
+            return False
+        # the element itself in the key (a tuple (obj, obj.name)) keeps the entries apart
+        bare = [x for x in ast.walk(key) if isinstance(x, ast.Name) and x.id in var
+                and not (isinstance(getattr(x, "_parent", None), ast.Attribute) and x._parent.value is x)]
+        return not bare
+
+    for n in ast.walk(tree):
+        if isinstance(n, ast.DictComp):
+            var = set()
+            for g in n.generators:
+                var |= {x.id for x in ast.walk(g.target) if isinstance(x, ast.Name)}
+            if by_name_only(n.key, var):
+                out.append((n, n.key, sorted(var)))
+        elif isinstance(n, ast.For):
+            var = {x.id for x in ast.walk(n.target) if isinstance(x, ast.Name)}
+            for a in ast.walk(n):
+                key = None
+                if isinstance(a, (ast.Assign, ast.AugAssign)):
+                    for t in (a.targets if isinstance(a, ast.Assign) else [a.target]):
+                        if isinstance(t, ast.Subscript):
+                            key = t.slice
+                elif isinstance(a, ast.Call) and isinstance(a.func, ast.Attribute) and a.func.attr == "setdefault" and a.args:
+                    key = a.args[0]
+                if key is not None and by_name_only(key, var):
+                    out.append((a, key, sorted(var)))
+    return out
+
+
+@rule("R-NAMEKEY")
+def r_namekey(E):
+    pm = E.pm
+    res = RuleResult("R-NAMEKEY", "in model code a table holding one term per object of a collection is keyed by the object "
+                                  "or its id, never by its name alone: names are free text (Device.laptop() twice, two "
+                                  "jobs called 'upload'), entries of the same name overwrite one another, and what is "
+                                  "summed from the table then drops objects and depends on which one is listed last")
+    for mod, (rel, tree, src) in sorted(pm.modules.items()):
+        if not (rel.startswith("efootprint/core") or rel.startswith("efootprint/builders")):
+            continue
+        res.instances += len([n for n in ast.walk(tree) if isinstance(n, (ast.DictComp, ast.For))])
+        for n, key, var in name_keyed_tables(tree):
+            fn = n
+            while fn is not None and not isinstance(fn, ast.FunctionDef):
+                fn = getattr(fn, "_parent", None)
+            cls = fn
+            while cls is not None and not isinstance(cls, ast.ClassDef):
+                cls = getattr(cls, "_parent", None)
+            q = (f"{cls.name}.{fn.name}" if cls is not None else fn.name) if fn is not None else "<module>"
+            res.findings.append(Finding(
+                "R-NAMEKEY", f"{q} :: key {norm(key)[:40]}",
+                f"{q} builds a table with one entry per element ({', '.join(var)}) keyed by `{norm(key)[:40]}`: names are not "
+                f"unique, two elements of the same name share one entry and the one listed last wins — a sum over the "
+                f"table loses an object and changes when the list is permuted", rel, n.lineno, q))
+    pos = name_keyed_tables(set_parents(ast.parse(_NK_POSITIVE)))
+    neg = name_keyed_tables(set_parents(ast.parse(_NK_NEGATIVE)))
+    if len(pos) != 2 or neg:
+        raise AnalysisError(f"R-NAMEKEY: embedded examples: {len(pos)} of 2 positive recognised, {len(neg)} false reports")
+    res.instances += 2
+    res.samples = [{"embedded_positive_examples_recognised": 2, "embedded_twins_silent": True}]
+    res.floor = 30
     return res
 
 
